@@ -189,7 +189,14 @@ func (e *Exponent) UnmarshalBinary(data []byte) error {
 		return errors.New("can't unmarshal Exponent with no group")
 	}
 	group := e.group
+	if len(data) < 4 {
+		return errors.New("exponent: data is too short")
+	}
 	size := binary.BigEndian.Uint32(data)
+	// each coefficient takes at least 33 bytes of the encoding: don't allocate for more than the data can hold
+	if uint64(size)*33 > uint64(len(data)) {
+		return errors.New("exponent: invalid number of coefficients")
+	}
 	e.coefficients = make([]curve.Point, int(size))
 	for i := 0; i < len(e.coefficients); i++ {
 		e.coefficients[i] = group.NewPoint()
